@@ -427,7 +427,31 @@ class Inner:
         if m in TRANSPARENT and listish:
             return recv
         if recv["v"] in ("fresh", "opts"):
+            # a helper method of the options type other than the registration function itself (`update_all(list)`): its body is
+            # interpreted in place with `self` = the options object and the parameters bound to the argument values
+            oty = None
+            for k_, f_ in self.facts.fns.items():
+                if f_.impl is not None and not f_.impl.get("trait") and f_.name == m and not f_.test and f_.node.get("self") is not None and len([p_ for p_ in f_.params if p_[0] != "self"]) == len(e["args"]) and F.norm_ty(f_.impl["self_ty"]).split("<")[0] in ("RunOptions",) + tuple(t_ for t_ in self.facts.structs if t_.endswith("Options")):
+                    oty = f_
+            if oty is not None and self.depth < 4 and find_all(oty.body, lambda n_: n_.get("k") == "mcall" and n_["m"] != m and rx.is_var(n_["recv"], "self")):
+                argv = [self.ev(a) for a in e["args"]]
+                saved = (self.env, self.benv, self.inp, self.fn)
+                self.env = dict({pn: v for (pn, _), v in zip([p_ for p_ in oty.params if p_[0] != "self"], argv)}, self=recv)
+                self.benv = {"__fn": oty, "__input": None, "__tsubst": {}, "__module": oty.module}
+                self.inp = None
+                self.depth += 1
+                self.inlined.append(oty.key)
+                try:
+                    val = self._block(oty.body)
+                finally:
+                    self.env, self.benv, self.inp, self.fn = saved
+                    self.depth -= 1
+                return val
+            for a in e["args"]:
+                self.ev(a)  # (parse events inside the arguments keep their place in the order of events)
             return self.unk(e, "method on the options object outside an element-wise traversal")
+        for a in e["args"]:
+            self.ev(a)
         return self.unk(e, "method call")
 
     # ------------------------------------------------------------------ element-wise cases
